@@ -394,6 +394,9 @@ class DMRGEngine(IterativeSweeps):
         """
         max_E_err = self.options.get('max_E_err', 1.0e-8, 'real')
         max_S_err = self.options.get('max_S_err', 1.0e-5, 'real')
+        if len(self.sweep_stats['E']) == 0:
+            # e.g. directly after resuming from a checkpoint: no sweep of this run to judge from yet
+            return False
         E = self.sweep_stats['E'][-1]
         Delta_E = self.sweep_stats['Delta_E'][-1]
         Delta_S = self.sweep_stats['Delta_S'][-1]
